@@ -69,6 +69,17 @@ def register(db):
             (f"field-{i + 1}-is-built-for-this-class-under-its-own-name",
              f"call_arg('{BUILD}', 1, {i}) is clazz and call_arg('{BUILD}', 2, {i}) == {f}.name and call_arg('{BUILD}', 5, {i}) == {f}.init"),
         ]
+    for i, f in enumerate(("fld", "fld2")):
+        D = f"uf('declaring_class', 'u:type', clazz, {f}.name)"
+        ensures.append((f"field-{i + 1}-inherited-from-a-class-whose-Meta-names-a-namespace-gets-that-namespace",
+                        f"implies({D} is not clazz and 'Meta' in {D}.__dict__ and uf('hasattr_namespace', 'bool', {D}.Meta), "
+                        f"call_arg('{BUILD}', 6, {i}) is uf('Any.namespace', 'u:Any', {D}.Meta))"))
+    R0, R1 = f"call_result('{BUILD}', 0)", f"call_result('{BUILD}', 1)"
+    ensures += [
+        ("built-vars-are-yielded-in-field-order-none-is-skipped",
+         f"len(result) == ite({R0} is not None, 1, 0) + ite({R1} is not None, 1, 0) and "
+         f"implies({R0} is not None, result[0] is {R0}) and implies({R1} is not None, result[-1] is {R1})"),
+    ]
     db.add(Contract(
         f"{B}:XmlMetaBuilder.build_vars", variant="two-fields",
         params={"self": builder, "clazz": "opaque:type", "namespace": "str|None", "element_name_generator": "opaque:Any",
